@@ -279,6 +279,9 @@ def build_pattern(ad, rng):
         kw.pop("tracks"), kw.pop("lines")
         q = api.Pattern(**kw)
         if rng.random() < 0.5:
+            # ... but the new object has been printed / logged (formatting is looking, not touching)
+            rng.choice((repr, str, lambda o: f"{o}", lambda o: "%s %r" % (o, o), lambda o: (hash(o) if o.__hash__ else None, o == o, bool(o))))(q)
+        if rng.random() < 0.5:
             q.tracks, q.lines = ad["tracks"], ad["lines"]
         else:
             q.lines, q.tracks = ad["lines"], ad["tracks"]
